@@ -247,6 +247,7 @@ func cmdCheck(args []string) {
 	only := fs.String("func", "", "restrict to one function (debugging)")
 	verbose := fs.Bool("v", false, "")
 	noEvidence := fs.Bool("no-evidence", false, "")
+	tmo := fs.Int("timeout", 0, "per-query solver timeout in ms (default 10000 quick, 60000 thorough)")
 	fs.Parse(args)
 	start := time.Now()
 	seed := 0
@@ -255,6 +256,9 @@ func cmdCheck(args []string) {
 	timeout := 10000
 	if *tier == "thorough" {
 		timeout = 60000
+	}
+	if *tmo > 0 {
+		timeout = *tmo
 	}
 	var fgs []*FuncGen
 	genErrs := map[string]error{}
